@@ -286,8 +286,10 @@ def classify_open_hull(ps):
         small = int((nn <= 1e-13).sum())
         hv = q.points[q.vertices]
         dd = cKDTree(hv).query(hv, k=2)[0][:, 1]
+        if len(np.unique(hv, axis=0)) < len(hv):
+            return "coincident_hull_vertices", f"qhull returned {len(hv) - len(np.unique(hv, axis=0))} input point(s) twice as hull vertices ({small} zero-area faces between them)"
         if small:
-            return "faces_below_tol_zero", f"{small} of {len(nn)} qhull faces have |cross| <= 1e-13 (smallest {nn.min():.3e}, {int((nn == 0).sum())} exactly zero) and are dropped by convex_hull"
+            return "faces_below_tol_zero", f"{small} of {len(nn)} qhull faces have |cross| <= 1e-13 (smallest {nn.min():.3e}, {int((nn == 0).sum())} exactly zero)"
         if (dd <= 1e-8 * 1.5).any():
             return "vertices_within_tol_merge", f"closest pair of hull vertices {dd.min():.3e} apart"
         return "other", f"smallest qhull face |cross| {nn.min():.3e}, closest hull vertices {dd.min():.3e}"
